@@ -3,7 +3,7 @@ operations (aliases, plain __typename, @include/@skip on nullable leaf fields, n
 on member object types of interfaces and unions, named fragments on object and abstract types, fragments spreading
 another fragment) and hands each to the reference-executor check of e2e_results (every conformant response accepted,
 typed, round-tripped; single-point corruptions rejected).  The grammar leaves out the shapes of the recorded findings
-(F11, F23, F24, F25, F36, F42): they have their own listed scenarios.  Deterministic: the seed fixes the operations."""
+(F23, F24, F25, F36, F42, F45): they have their own listed scenarios.  Deterministic: the seed fixes the operations."""
 import random
 import graphql as G
 from . import e2e_results as R
@@ -86,8 +86,7 @@ class Gen:
                 parts.append(f"... on {m} {{ {body} }}")
         if not parts:
             parts.append("__typename")
-        # the whole selection behind a fragment on the abstract type (it is unpacked because of its inline fragments; a fragment
-        # on an abstract type that reaches the member types only through spreads is finding F44 and has its own scenario)
+        # the whole selection behind a fragment on the abstract type (it is unpacked because of its inline fragments)
         if any(p.startswith("... on ") for p in parts) and self.r.random() < 0.25:
             fname = f"F{len(self.fragments)}{tname}"
             self.fragments.append(f"fragment {fname} on {tname} {{ {' '.join(parts)} }}")
